@@ -3188,15 +3188,43 @@ static void build_stmt(WorkList *list, ScopeStack *scopes, ASTNode *stmt, int in
                 range->as.call.name && strcmp(range->as.call.name, "range") == 0 &&
                 range->as.call.arg_count == 2) {
                 
+                /* `for x in (range (f x) (g x))`: x in the bounds is the OUTER x, but in C the
+                 * declarator's scope starts at its own initialiser and the condition sees the loop
+                 * variable.  Evaluate such bounds into temporaries before the loop. */
+                bool self_ref = expr_mentions_identifier(range->as.call.args[0], var) ||
+                                expr_mentions_identifier(range->as.call.args[1], var);
+                int for_tmp_id = 0;
+                if (self_ref) {
+                    static int for_bound_counter = 0;
+                    for_tmp_id = for_bound_counter++;
+                    emit_indent_item(list, indent);
+                    emit_literal(list, "{\n");
+                    emit_indent_item(list, indent);
+                    emit_formatted(list, "int64_t nl_for_lo_%d = ", for_tmp_id);
+                    build_expr(list, range->as.call.args[0], env);
+                    emit_literal(list, ";\n");
+                    emit_indent_item(list, indent);
+                    emit_formatted(list, "int64_t nl_for_hi_%d = ", for_tmp_id);
+                    build_expr(list, range->as.call.args[1], env);
+                    emit_literal(list, ";\n");
+                }
                 emit_indent_item(list, indent);
                 emit_literal(list, "for (int64_t ");
                 emit_literal(list, var);
                 emit_literal(list, " = ");
-                build_expr(list, range->as.call.args[0], env);
+                if (self_ref) {
+                    emit_formatted(list, "nl_for_lo_%d", for_tmp_id);
+                } else {
+                    build_expr(list, range->as.call.args[0], env);
+                }
                 emit_literal(list, "; ");
                 emit_literal(list, var);
                 emit_literal(list, " < ");
-                build_expr(list, range->as.call.args[1], env);
+                if (self_ref) {
+                    emit_formatted(list, "nl_for_hi_%d", for_tmp_id);
+                } else {
+                    build_expr(list, range->as.call.args[1], env);
+                }
                 emit_literal(list, "; ");
                 emit_literal(list, var);
                 emit_literal(list, "++) ");
@@ -3205,6 +3233,10 @@ static void build_stmt(WorkList *list, ScopeStack *scopes, ASTNode *stmt, int in
                 env_define_var_with_type_info(env, var, TYPE_INT, TYPE_UNKNOWN, NULL, false, create_void());
                 build_stmt(list, scopes, stmt->as.for_stmt.body, indent, env, fn_registry);
                 env->symbol_count = for_scope_start;   /* as for parameters: dropped, not freed */
+                if (self_ref) {
+                    emit_indent_item(list, indent);
+                    emit_literal(list, "}\n");
+                }
             } else {
                 /* Fallback for non-range for loops */
                 emit_indent_item(list, indent);
